@@ -25,17 +25,14 @@ Qed.
 Lemma powm_nn_range a e m : 0 <= e -> m <> 0 -> 0 <= powm_nn a e m < Z.abs m.
 Proof. intros. rewrite powm_nn_correct by assumption. apply Z.mod_pos_bound. lia. Qed.
 
-(* mp_powm has the documented meaning of mpz_powm: GMP for every modulus, the boost version
-   for positive moduli *)
+(* mp_powm has the documented meaning of mpz_powm in both configurations *)
 Lemma mp_powm_correct c a e m :
-  0 <= e -> (c = GMP /\ m <> 0) \/ 0 < m -> mp_powm c a e m = Ok ((a ^ e) mod (Z.abs m)).
+  0 <= e -> m <> 0 -> mp_powm c a e m = Ok ((a ^ e) mod (Z.abs m)).
 Proof.
-  intros He Hc. unfold mp_powm.
+  intros He Hm. unfold mp_powm.
   destruct (m =? 0) eqn:E0; [lia|].
-  assert (Hm : m <> 0) by lia.
   pose proof (powm_nn_range a e m He Hm) as R. rewrite <- (powm_nn_correct a e m He Hm).
   destruct c; [reflexivity|].
-  destruct Hc as [[? _]|Hpos]; [discriminate|].
   unfold tpowm. set (r := powm_nn a e m) in *.
   destruct ((a <? 0) && Z.odd e && negb (r =? 0)) eqn:Eb.
   - destruct (r - Z.abs m <? 0) eqn:E1; f_equal; lia.
@@ -43,14 +40,14 @@ Proof.
 Qed.
 
 Theorem powermod_correct c a b m :
-  (c = GMP /\ m <> 0) \/ 0 < m ->
+  m <> 0 ->
   (0 <= b -> nt_powermod c a b m = Ok (Some ((a ^ b) mod (Z.abs m)))) /\
   (b < 0 ->
    let p := (a ^ (- b)) mod (Z.abs m) in
    (Z.gcd p m = 1 -> exists x, nt_powermod c a b m = Ok (Some x) /\ is_inverse x p m) /\
    (Z.gcd p m <> 1 -> nt_powermod c a b m = Ok None)).
 Proof.
-  intros Hc. assert (Hm : m <> 0) by lia. unfold nt_powermod. split.
+  intros Hm. unfold nt_powermod. split.
   - intros Hb. destruct (b <? 0) eqn:E; [lia|].
     rewrite mp_powm_correct by assumption. reflexivity.
   - intros Hb. cbv zeta. set (p := (a ^ (- b)) mod Z.abs m).
